@@ -332,6 +332,35 @@ theorem half_one_of_each (σ : Nat → Nat → Nat → Nat) (hσ : PermFam σ) (
     rw [upperRec_neg nd.pt (exists_ne_zero_of_co hne)]
     simp [hnd, hnd']
 
+/-- "every subdivision history": a read-only observer between two subdivisions is an identity step of the model, so
+every theorem above about `iter σ kind k` holds for every history with `k` subdivisions and any observer calls in
+between (on the implementation this is what the observer histories of the harness check). -/
+theorem observe_id (s : St) : observe s = s := rfl
+
+/-- a history of subdivisions and observer calls: the state depends only on the number of subdivisions. -/
+theorem history_state (σ : Nat → Nat → Nat → Nat) (kind : Kind) (ops : List Bool) :
+    ops.foldl (fun s isDivide => if isDivide then divide σ kind s else observe s) (create σ kind) =
+      iter σ kind (ops.filter id).length := by
+  have h : ∀ (ops : List Bool) (k : Nat),
+      ops.foldl (fun s isDivide => if isDivide then divide σ kind s else observe s) (iter σ kind k) =
+        iter σ kind (k + (ops.filter id).length) := by
+    intro ops
+    induction ops with
+    | nil => intro k; rfl
+    | cons b t ih =>
+      intro k
+      cases b with
+      | true =>
+        simp only [List.foldl_cons, if_true, List.filter_cons, id, List.length_cons]
+        rw [show divide σ kind (iter σ kind k) = iter σ kind (k + 1) from rfl, ih (k + 1)]
+        congr 1; omega
+      | false =>
+        simp only [List.foldl_cons, Bool.false_eq_true, if_false, List.filter_cons, id, observe_id]
+        exact ih k
+  have h0 := h ops 0
+  rw [Nat.zero_add] at h0
+  exact h0
+
 /-! ### projection -/
 
 /-- squared Euclidean length of an integer point. -/
